@@ -14,6 +14,7 @@ func hookStop() []hookEvent {
 	out := make([]hookEvent, len(evs))
 	for i, e := range evs {
 		out[i] = hookEvent{Seq: e.Seq, G: e.G, Ev: e.Ev, Kind: e.Kind, Phase: e.Phase, Num: e.Num, Obj: e.Obj, Mine: e.Mine, Cell: e.Cell}
+		out[i].K, out[i].N = entryKN(e)
 	}
 	return out
 }
